@@ -181,6 +181,35 @@ FAMILIES = ["cage_mixture", "labelled_isolated", "charged_dt", "random_sparse", 
 BOND_TYPES = [1, 1, 1, 1, 2, 2, 3, 4, 4, 5, 6, 7, 8, 9, 10]
 
 
+def regular_mixtures(rng, count):
+    """Mixtures of two or three DIFFERENT unlabelled regular carbon skeletons of one degree (rings of different sizes; cubic
+    cages of different sizes).  Partition refinement cannot tell their atoms apart, so all atoms share one class and only the
+    bliss labelling and the cosmetic relabelling decide the string: the order in which the library visits the components must
+    not depend on how the description lists them.  Components of 8 and 16 atoms are over-represented (label blocks that
+    start at multiples of 8)."""
+    rings = [3, 4, 5, 6, 7, 8, 8, 9, 10, 12, 16, 16]
+    cubic = [("K4", 4, sk_complete(4)), ("prism3", 6, sk_prism(3)), ("cube", 8, sk_cube()), ("prism5", 10, sk_prism(5)),
+             ("petersen", 10, sk_petersen()), ("prism6", 12, sk_prism(6)), ("prism8", 16, sk_prism(8))]
+    for i in range(count):
+        k = 2 if rng.random() < 0.7 else 3
+        comps = []
+        if i % 2 == 0:
+            for size in rng.sample(sorted(set(rings)), k):
+                comps.append((f"ring{size}", size, sk_cycle(size)))
+            if rng.random() < 0.6 and not any(c[1] in (8, 16) for c in comps):
+                size = rng.choice([8, 16])
+                comps[0] = (f"ring{size}", size, sk_cycle(size))
+        else:
+            comps = rng.sample(cubic, k)
+        rng.shuffle(comps)
+        n, edges = 0, []
+        for _, size, e in comps:
+            edges += [(a + n, b + n) for a, b in e]
+            n += size
+        atoms = [_atom("C", j) for j in range(n)]
+        yield Mol(atoms, [(a, b, 1) for a, b in edges], "regular_mixture:" + "+".join(c[0] for c in comps))
+
+
 def decorate(n, edges, rng, syms=None, label_p=0.15, family=""):
     atoms = []
     for i in range(n):
